@@ -146,6 +146,7 @@ def build(P):
                         a = list(good); a[pos] = lit[other]
                         if "BYREF" in head and pos < 2: continue
                         glists.append("\n".join([hd] + body + decls + [callf % ", ".join(a), "OUTPUT \"after\""]))
+        yield ("pointer-site-matrix", [Case(id="C05-ps-%d" % i, prog=(sp + "\n").encode(), meta=dict(units=["ps/%d" % i])) for i, sp in enumerate(ptr_site_matrix())])
         yield ("grouped-parameter-types", [Case(id="C05-glist-%d" % i, prog=(sp + "\n").encode(), meta=dict(units=["glist/%d" % i])) for i, sp in enumerate(glists)])
         n = sizes(tier, 600, 20000)
         cs = []
@@ -299,6 +300,26 @@ def build(P):
                rule="all 1-dimensional shapes with bounds in [-3,4], a sample (quick) / all 2-dimensional and a sample of 3-dimensional shapes: a distinct value written to every cell, "
                     "all read back (expected text computed by the harness), every index one step outside (all of them for 1- and, in the thorough tier, 2-dimensional shapes; a sample otherwise) probed in its own program; hand-built shapes for index type / count errors "
                     "and whole-array assignment (copy, independence, pointers and BYREF aliases to elements); generator programs; normal and sanitizer builds")
+
+    def ptr_site_matrix():
+        """p <- ^<place> for every (pointer base type, place type) pair where the place is reached as a BYREF formal, a BYVAL formal, an array element or a record field:
+        accepted exactly for identical types; then p^ reads and writes the place"""
+        PT = {"INTEGER": ("5", "6"), "REAL": ("2.5", "3.5"), "STRING": ('"s"', '"t"'), "CHAR": ("'c'", "'d'"), "BOOLEAN": ("TRUE", "FALSE"), "DATE": ("1/2/2003", "4/5/2006"), "Colour": ("Green", "Blue"), "Season": ("Winter", "Spring")}
+        pre = ["TYPE Colour = (Red, Green, Blue)", "TYPE Season = (Spring, Summer, Autumn, Winter)"]
+        out = []
+        for tgt in PT:
+            for vt in PT:
+                for site in ("byref", "byval", "elem", "field", "byref-chain", "fn-byref"):
+                    L = list(pre) + ["TYPE PX = ^%s" % tgt, "DECLARE p : PX", "DECLARE v : %s" % vt, "v <- %s" % PT[vt][0]]
+                    use = ["OUTPUT \"bound\"", "OUTPUT p^", "p^ <- %s" % PT[tgt][1], "OUTPUT \"written\""]
+                    if site == "byref": L += ["PROCEDURE Take(BYREF x : %s)" % vt, "p <- ^x"] + use + ["OUTPUT x", "ENDPROCEDURE", "CALL Take(v)", "OUTPUT v", "OUTPUT p^"]
+                    elif site == "byref-chain": L += ["PROCEDURE Inner(BYREF y : %s)" % vt, "p <- ^y"] + use + ["ENDPROCEDURE", "PROCEDURE Take(BYREF x : %s)" % vt, "CALL Inner(x)", "OUTPUT x", "ENDPROCEDURE", "CALL Take(v)", "OUTPUT v", "OUTPUT p^"]
+                    elif site == "fn-byref": L += ["FUNCTION Take(BYREF x : %s) RETURNS INTEGER" % vt, "p <- ^x"] + use + ["RETURN 1", "ENDFUNCTION", "d <- Take(v)", "OUTPUT v", "OUTPUT p^"]
+                    elif site == "byval": L += ["PROCEDURE Take(x : %s)" % vt, "p <- ^x"] + use + ["OUTPUT x", "ENDPROCEDURE", "CALL Take(v)", "OUTPUT v", "OUTPUT p^"]
+                    elif site == "elem": L += ["DECLARE arr : ARRAY[1:2] OF %s" % vt, "arr[2] <- v", "p <- ^arr[2]"] + use + ["OUTPUT arr[2]"]
+                    elif site == "field": L += ["TYPE Hold\nDECLARE k : INTEGER\nDECLARE f : %s\nENDTYPE" % vt, "DECLARE h : Hold", "h.f <- v", "p <- ^h.f"] + use + ["OUTPUT h.f"]
+                    out.append("\n".join(L))
+        return out
 
     # ------------------------------------------------------------------ C07
     def rec_gen(r, levels, with_arrays=True):
@@ -626,6 +647,7 @@ def build(P):
                 else: L += ["OUTPUT w", "OUTPUT p^ = w"]
                 pm.append("\n".join(L))
         yield ("pointer-type-matrix", [Case(id="C09-pt-%d" % i, prog=(sp + "\n").encode(), meta=dict(units=["pt/%d" % i])) for i, sp in enumerate(pm)])
+        yield ("pointer-site-matrix", [Case(id="C09-ps-%d" % i, prog=(sp + "\n").encode(), meta=dict(units=["ps/%d" % i])) for i, sp in enumerate(ptr_site_matrix())])
         # an alias (pointer / BYREF parameter) to a place inside a container stays an alias of that place when the container, or a part of it
         # on the way to the place, is assigned as a whole afterwards: the alias then reads the new contents and writes into them
         TY = ["TYPE In\nDECLARE x : INTEGER\nENDTYPE", "TYPE Mid\nDECLARE inner : In\nDECLARE tag : INTEGER\nENDTYPE",
